@@ -21,5 +21,7 @@ def replay(path):
 
 
 def extra(chk, info, res):
+    from checks import guards_common
+    guards_common.correspondence(chk, ['filtration_allow_swim', 'filtration_is_wintering'])
     from checks import winter_common
     winter_common.correspondence(chk, ('timed',))
